@@ -397,7 +397,8 @@ PROPS = {
         theorems={t: [] for t in [
             "C12_every_history", "C12_get", "C12_insert", "C12_insert_other_keys", "C12_remove",
             "C12_remove_other_keys", "C12_get_mut", "C12_entry", "C12_adjust_capacity", "C12_iter_len",
-            "C12_alloc_failure_unchanged", "C12_load_leaves_free_slot"]},
+            "C12_alloc_failure_unchanged", "C12_load_leaves_free_slot", "C12_conservation",
+            "C12_step_conserves"]},
         n_quick=300, n_thorough=4000,
         gates=["hm.grew>2", "hm.removed_present", "hm.alloc_failed", "hm.mode=hint", "hm.mode=hash",
                "hm.zero_hash_key_in_universe", "hm.get_mut_written"],
@@ -482,7 +483,8 @@ PROPS = {
         check_module="C13Check",
         theorems={t: [] for t in [
             "C13_every_history", "C13_get", "C13_insert", "C13_entry", "C13_remove",
-            "C13_other_handles_after_remove", "C13_iter_len", "C13_mask_is_mod"]},
+            "C13_other_handles_after_remove", "C13_iter_len", "C13_mask_is_mod", "C13_conservation",
+            "C13_step_conserves"]},
         n_quick=300, n_thorough=4000,
         gates=["ht.grew>1", "ht.removed_present", "ht.alloc_failed", "ht.entry_new>16", "ht.index_absent",
                "ht.cap0_not_pow2", "ht.keys=colliding", "ht.keys=small", "ht.keys=random"],
